@@ -168,3 +168,23 @@ def sleepy_catch(x):
     except SoftTimeLimitExceeded:
         time.sleep(x)
     return ('slept', x)
+
+
+
+# ---- worker initializers (run inside the child before the job loop) -------
+def init_reset_signals():
+    """What application initializers commonly do (Celery's
+    process_initializer): put signal dispositions back to the default."""
+    import signal
+    for name in ('SIGTERM', 'SIGUSR1', 'SIGINT'):
+        signal.signal(getattr(signal, name), signal.SIG_DFL)
+
+
+def init_own_handlers():
+    """An initializer that installs handlers of its own."""
+    import signal
+
+    def mine(signum, frame):
+        raise RuntimeError('application handler for signal %d' % signum)
+    signal.signal(signal.SIGTERM, mine)
+    signal.signal(signal.SIGUSR1, mine)
